@@ -20,6 +20,7 @@ def run(ck, F):
     ck.rule("R1", "uniqueness post-condition: every abbreviation returned was tested to be unused in `existing`")
     ck.rule("R2", "uniqueness scope: `existing` is the registry holding every Namespace of the document (`namespaces`)")
     ck.rule("R3", "single allocation: Namespace{..} is built only after `find by URI` in the registry failed; rust_mod_name derives from the same abbreviation")
+    ck.rule("R5", "a prefix written as a literal in an emitted namespace map cannot coincide with an allocated abbreviation")
     ck.rule("R4", "merge reconciliation: merging registries matches incoming entries by URI and re-checks abbreviations")
     makers = A.abbreviation_makers(F)
     if len(makers) != 1:
@@ -171,6 +172,8 @@ def run(ck, F):
             ck.ok("R3", "lookup-before-construct", site, f"{short}: a Namespace is only built when no registry entry has this URI", fn=fn)
         else:
             ck.violation("R3", "lookup-before-construct", site, f"{short}: a Namespace is built without first looking its URI up in the registry: one URI can get two prefixes", fn=fn)
+    # ---- R5: fixed prefixes next to allocated ones
+    rule_fixed_prefixes(ck, F, MAKE)
     # ---- R4
     MERGE = A.merge_fn(F)
     b = F.lib.body(MERGE) if MERGE else None
@@ -231,6 +234,62 @@ def run(ck, F):
         ck.violation("R4", "merge-by-uri", b["span"],
                      "RustDocument::extend merges the namespace registries by whole-value equality: the same URI "
                      "abbreviated differently in two files yields two prefixes/modules, and two URIs abbreviated alike in two files share one")
+
+
+def rule_fixed_prefixes(ck, F, maker):
+    """A namespace map of an emitted struct may hold prefixes written as literals (`soapenv`) next to the allocated abbreviations. The
+    two cannot coincide only if the literal cannot be an abbreviation: abbreviations are at most N alphanumeric characters (the
+    constant of the `take(N)` in the allocator) followed by a decimal counter. A literal of that form can be allocated to a target
+    namespace as well, and one map then binds one prefix to two URIs."""
+    import re as _re
+    from rules import c03 as C03
+    from rules import templates as T
+    n_take = None
+    for q in [maker] + A.local_callees(F, maker, depth=2):
+        b = F.lib.body(q)
+        if b is None or not b.get("mir"):
+            continue
+        B = M.Body(b)
+        for bb, t in B.calls():
+            if (M.Body.callee_decl(t) or "").endswith("iter::Iterator::take") and len(t["args"]) == 2:
+                for o in M.trace(B, t["args"][1], ()):
+                    v = o.const.get("int", o.const.get("bits")) if o.kind == "const" else None
+                    if isinstance(v, int):
+                        n_take = v if n_take is None else max(n_take, v)
+    X = T.extractor(F)
+    CE = og.CallExpander(F)
+    lits = {}
+    for fn in T.struct_emitters(X):
+        try:
+            groups = T.struct_groups(X, fn)
+        except og.Unrecognised:
+            continue
+        for g in groups:
+            for ev in [e for e in g.pre if "#[yaserde(" in e.skeleton()]:
+                a = C03.parse_attr(ev)
+                if a is None:
+                    continue
+                entries, found = C03.nsmap_entries(a, CE)
+                if found and entries is None:
+                    ck.undecided("R5", "fixed-prefixes:unreadable-map", ev.site, "a namespace map could not be read entry by entry: whether it holds a literal prefix that can "
+                                 "coincide with an abbreviation is not decided")
+                for ent in entries or []:
+                    k = ent[0]
+                    if isinstance(k, tuple) and k[0] == "lit" and isinstance(k[1], str):
+                        lits.setdefault(k[1], ev.site)
+    if not lits:
+        ck.ok("R5", "fixed-prefixes:none", "-", "no namespace map holds a literal prefix")
+        return
+    for lit, site in sorted(lits.items()):
+        if n_take is None:
+            ck.undecided("R5", f"fixed-prefix:{lit}", site, "the length bound of an allocated abbreviation (`take(N)` in the allocator) was not found: whether the "
+                         f"literal prefix `{lit}` can coincide with an abbreviation is not decided")
+        elif _re.fullmatch(r"[a-z0-9]{0,%d}[0-9]*" % n_take, lit.lower()):
+            ck.violation("R5", f"fixed-prefix:{lit}", site,
+                         f"the literal prefix `{lit}` in an emitted namespace map has the form of an allocated abbreviation (at most {n_take} alphanumeric characters "
+                         f"and a counter): a target namespace abbreviated `{lit.lower()}` gives one map two bindings of that prefix")
+        else:
+            ck.ok("R5", f"fixed-prefix:{lit}", site, f"`{lit}` cannot be an allocated abbreviation (those are at most {n_take} alphanumeric characters and a counter)")
 
 
 def _closure_compares_unequal(F, B, operand):
